@@ -9,7 +9,8 @@ def check(run, replay=None):
                 "methods) of the two other kinds; handlers run are read from the call log in storage and from the response; "
                 "L1: which name lists / message types each contract-level type uses, and which message type or registered override each "
                 "operation of the generated multitest Contract impl uses (all single-kind override sets + random subsets); non-trivial = distinct (program, route, message)")
-    rc = msgprops.check(run, "C04", "Props/C04", THEOREMS, {"c04": True}, replay)
+    rc = msgprops.check(run, "C04", "Props/C04", THEOREMS, {"c04": True}, replay,
+                        translated=("Props/C04T", ["c04_translated_multitest_operations", "c04_default_dispatch_names_its_own_kind"]))
     if not replay:
         # the multitest Contract impl: every operation reaches only its own kind's message type or override
         import random
